@@ -124,6 +124,16 @@ example : (19800 : Int) % 60 = 0 := by decide
 example : next ⟨1, 1, 1, 2147483648, 4, 0⟩ (fixedZone 0) 1500000000000000000 = .zero := by decide
 example : everyNext (everyDelay 1500000000) 1500000000123456789 = 1500000001000000000 := by decide
 
+/-- The hypothesis `off % 60 = 0` cannot be dropped (`Truncate(time.Minute)` is absolute): at a
+constant offset of +30 s, `0 5 * * * *` from local 00:00:10 answers local 01:05:00 although local
+00:05:00 (`1499990670`) matches.  Such offsets occur only as pre-1900 local mean time. -/
+theorem next_missed_nonminute_offset :
+    next ⟨1, 32, 16777215, 9223372041149743102, 8190, 9223372036854775935⟩ (fixedZone 30)
+      1499990380000000000 = .at 1499994270 ∧
+    Matches ⟨1, 32, 16777215, 9223372041149743102, 8190, 9223372036854775935⟩ (fixedZone 30) 1499990670 ∧
+    (1499990380000000000 : Int) < 1499990670 * 1000000000 ∧ (1499990670 : Int) < 1499994270 := by
+  decide
+
 /-! ### zones with transitions: the statement is false in general -/
 
 /-- The unrestricted statement: sound and minimal on every zone table. -/
